@@ -35,7 +35,7 @@ C2S_EVENT_CH = {"CE0": 1, "CEM": 2, "CT": 3}
 
 
 def gen_script(rng, nclients=None, policy=None, track=None, auth=None, length=None, periodic=False,
-               late_join=True, sessions=False, weights=None, max_size=None, events=False, rel=False, burst=0.0):
+               late_join=True, sessions=False, weights=None, max_size=None, events=False, rel=False, burst=0.0, rel_heavy=False):
     w = dict(sop=5.0, sframe=3.0, cframe=2.5, deliver=4.0, drop=0.6, session=0.25 if sessions else 0.0,
              sev=2.0 if events else 0.0, cev=1.2 if events else 0.0, edeliver=3.0 if events else 0.0)
     if weights:
@@ -104,7 +104,7 @@ def gen_script(rng, nclients=None, policy=None, track=None, auth=None, length=No
             return
         e = rng.choice(ents)
         st = wd.alive[e]
-        if rel and rng.random() < 0.15:
+        if rel and rng.random() < (0.4 if rel_heavy else 0.15):
             # relationship registered for synchronized replication: set / replace / clear
             if rng.random() < 0.75 and len(ents) > 1:
                 t = rng.choice([x for x in ents if x != e])
